@@ -46,9 +46,12 @@ def _expect(cond: bool, path, node, what: str):
 
 
 def _nonliteral_vars(node, side: str, path) -> bool:
-    """<side>._unique_variables_.filter(lambda v: not isinstance(v.value, Literal))"""
-    want = f"{side}._unique_variables_.filter(lambda v: not isinstance(v.value, Literal))"
-    return ast.unparse(node).replace("\n", " ") == want
+    """<side>._unique_variables_.filter(lambda v: not isinstance(v.value, Literal) and not v.value._should_be_instantiated_)
+    -- the variables a side RANGES over: neither literals nor the results of predicates / symbolic functions (which the
+    condition syntax of Eql/Syntax.v does not contain: there cond_vars is exactly this set)"""
+    want = (f"{side}._unique_variables_.filter(lambda v: not isinstance(v.value, Literal) and "
+            f"not v.value._should_be_instantiated_)")
+    return ast.dump(node) == ast.dump(ast.parse(want, mode="eval").body)
 
 
 def translate_optimize_or(repo: str) -> str:
